@@ -210,12 +210,27 @@ def f06b_mirror_root(law, fname, L, root, kp, rtol, tol, m=None, sec=False):
     a = abs(L)
     x0 = a * (1.0 - (1.0 - 1.0 / kp) / 1000.0)
     p1 = x0 * (1.0 + ARRAY_SECANT_DX) + ARRAY_SECANT_DX
-    if p1 < a:
+    if p1 < a * (1.0 - 1e-9):      # (a start point within rounding of |L| hits the u == 0 singularity of the coded residual)
         return False
     mirror = ref_mirror_root(a, m, kp, sec) if m is not None else None
     if mirror is None:
         mirror = a + (a - abs(root))
     return mirror - abs(root) > tol + rtol * abs(root)
+
+
+def f06b_load_start(law, fname, S, kp, rtol, tol):
+    """F06_b, backward direction: SeegerBeste.load starts the (scalar) secant iteration at x0 = |S|/(1-(1-1/K_p)/1000) and
+    x0(1+1e-4)+1e-4.  For K_p close to 1 that start step is not small against the admissible interval [|S|, K_p|S|]
+    (or even leaves it): the residual is far from linear over the start interval, the iteration creeps and the step-size
+    stop criterion fires early.  Class: start step > 1 % of the interval width (or second point outside), and the
+    interval is wider than the requested tolerance."""
+    if law != "SB" or fname not in ("load", "load_secondary_branch") or S == 0:
+        return False
+    a = abs(S)
+    x0 = a / (1.0 - (1.0 - 1.0 / kp) / 1000.0)
+    p1 = x0 * (1.0 + 1e-4) + 1e-4
+    width = (kp - 1.0) * a
+    return (p1 >= kp * a or p1 - x0 > 0.01 * width) and width > tol + rtol * a
 
 
 def f06d_sb_zero(law, L):
@@ -623,7 +638,8 @@ def odd(case, ctx):
             r = ref_load("SB", abs(v), m, kp, sec) if case["backward"] else ref_stress("SB", abs(v), m, kp, sec)
             L_, s_ = (r, abs(v)) if case["backward"] else (abs(v), r)
             if _known_gate(ctx, f06a_cancellation("SB", L_, s_, kp, rt, t), "F06_a") or \
-                    _known_gate(ctx, f06b_mirror_root("SB", fname, L_, s_, kp, rt, t, m, sec), "F06_b"):
+                    _known_gate(ctx, f06b_mirror_root("SB", fname, L_, s_, kp, rt, t, m, sec), "F06_b") or \
+                    _known_gate(ctx, f06b_load_start("SB", fname, s_, kp, rt, t), "F06_b"):
                 gated = True
                 continue
         if p != -q:
@@ -760,7 +776,8 @@ def inverse(case, ctx):
         nonlocal gated
         Ls = ref_load(lawname, abs(S), m, kp, sec)
         BL = bound(Ls, rt, t)
-        if _known_gate(ctx, f06a_cancellation(lawname, Ls, abs(S), kp, rt, t), "F06_a"):
+        if _known_gate(ctx, f06a_cancellation(lawname, Ls, abs(S), kp, rt, t), "F06_a") or \
+                _known_gate(ctx, f06b_load_start(lawname, bname, S, kp, rt, t), "F06_b"):
             gated = True
             return None
         if not math.isfinite(Lp):
